@@ -273,3 +273,31 @@ func TestD15(t *testing.T) {
 		t.Fatal("expected an error for two required inputs named c")
 	}
 }
+
+type Iface interface{ M() }
+type Impl int
+
+func (Impl) M() {}
+
+func TestD16(t *testing.T) {
+	// a parameter of interface type with subtype "s" must not receive a
+	// converter output of the same interface type labelled with subtype "t"
+	f := am.MustFunc(am.NewFunc(func(in struct {
+		am.Struct
+		A Iface `argmapper:"a,subtype=s"`
+	}) int {
+		return int(in.A.(Impl))
+	}))
+	r := f.Call(nolog, am.Converter(func() struct {
+		am.Struct
+		V Iface `argmapper:",typeOnly,subtype=t"`
+	} {
+		return struct {
+			am.Struct
+			V Iface `argmapper:",typeOnly,subtype=t"`
+		}{V: Impl(7)}
+	}))
+	if r.Err() == nil {
+		t.Fatalf("subtype s parameter received the subtype t value: %v", r.Out(0))
+	}
+}
